@@ -139,10 +139,6 @@ func (f *fnState) globalLoad(en *env, lv *LV) SV {
 		f.declare(name, sIface)
 		c := sym(name)
 		if first {
-			// these facts are closed terms: state them even when first met inside a quantifier body
-			q := f.quant
-			f.quant = 0
-			defer func() { f.quant = q }()
 			f.fact(fmt.Sprintf("(not (= %s %s))", c, nilIface))
 			f.note("assumption: package-level error variables are non-nil and never reassigned")
 			if f.entry != nil {
